@@ -60,6 +60,13 @@ Theorem div_zero_throws : forall lib l r, numeric l = true -> numeric r = true -
 Proof. exact div_zero_throws_l. Qed.
 Print Assumptions div_zero_throws.
 
+(* the divisor may be of any kind: null, "0", "0.0", -0.0 ... ; the dividend anything *)
+Theorem div_zero_any : forall lib l r,
+  (forall f, as_float lib r = Conv f -> feq f fzero = true -> quo lib l r = Throw) /\
+  (as_int r = Conv 0 -> rem l r = Throw).
+Proof. exact div_zero_any_l. Qed.
+Print Assumptions div_zero_any.
+
 (* "==/!= and ===/!== are complements" — on every operand pair (arrays and objects included),
    and both always yield a bool *)
 Theorem eq_ne_compl : forall lib same l r, exists b,
@@ -87,23 +94,20 @@ Theorem eq_sym_refuted : forall lib,
 Proof. exact eq_sym_refuted_l. Qed.
 Print Assumptions eq_sym_partial.
 
-(* "<=> agrees with < and >".  Full statement (all pairs) is FALSE of the current code
-   (cmp_lt_gt_refuted: null <=> 0 is -1 but null < 0 is false).  Proved on the complement of the
-   21 recorded ordered kind pairs (Spec.cmp_known: null with a non-null operand, float-string,
-   string with a non-string; known findings law:cmp-lt-gt:<k1>-<k2>). *)
-Theorem cmp_lt_gt_partial : forall lib l r,
-  cmp_known (ty_of l) (ty_of r) = false ->
-  law_cmp (cmp l r) (rel lib RLt l r) (rel lib RGt l r) = true.
-Proof. exact cmp_lt_gt_partial_l. Qed.
-Theorem cmp_lt_gt_refuted : forall lib,
-  cmp VNull (VInt 0) = Val (VInt (-1)) /\ rel lib RLt VNull (VInt 0) = Val (VBool false).
-Proof. exact cmp_lt_gt_refuted_l. Qed.
-Print Assumptions cmp_lt_gt_partial.
+(* "<=> agrees with < and >" — on EVERY operand pair (all kinds, nil included): since the fix
+   a2cefe8 the node computes <=> from the relational nodes *)
+Theorem cmp_lt_gt : forall lib l r,
+  law_cmp (cmp lib l r) (rel lib RLt l r) (rel lib RGt l r) = true.
+Proof. exact cmp_lt_gt_l. Qed.
+Print Assumptions cmp_lt_gt.
 
 (* "No operand combination crashes the interpreter: the outcome is a value or a catchable
    error" — every binary operator on every operand pair (all kinds incl. arrays, objects, class
-   instances; same-object or not), every unary operator on every operand: never Crash (Go
-   panic), never NoValue (nil result), never OutOfFuel *)
+   instances, and VNil = the result of a call that returns nothing; same-object or not), every
+   unary operator on every operand: never Crash (Go panic), never NoValue (nil result), never
+   OutOfFuel.  (Before f4173ed / b8b360c a nil operand of ||, && and + panicked: the value kind
+   was missing from the model, which made the old theorem true of the model and false of the code.)
+   Operand kinds NOT in the model: AnyValue, FuncValue (closures), references. *)
 Theorem no_crash_any_pair : forall lib same o l r, wf l = true -> wf r = true ->
   acceptable (binop_eval lib same o l r) = true.
 Proof. exact acceptable_any_pair_l. Qed.
